@@ -1870,7 +1870,8 @@ impl<'a> CompilerState<'a> {
                                             self.current_function,
                                             self.in_scope_variables.len()
                                         );
-                                        if self.variables.get(&name).is_some() {
+                                        // (the name made up may be the one of another local: x_0)
+                                        while self.variables.get(&name).is_some() {
                                             name = format!(
                                                 "{}_{}_{shortname}_{}",
                                                 self.current_function,
